@@ -480,21 +480,25 @@ def definitions(m):
     for s in m["scalars"]:
         url = f" @specifiedBy(url: {q(s['url'])})" if s["url"] is not None else ""
         out.append((s["name"], f"{_d(s['desc'])}scalar {s['name']}{url}"))
+    def body(lines):
+        return (" {\n" + "\n".join(lines) + "\n}") if lines else ""
+
     for e in m["enums"]:
-        vals = "\n".join(f"{_d(v['desc'], '  ')}  {v['name']}{_dep(v['dep'])}" for v in e["values"])
-        out.append((e["name"], f"{_d(e['desc'])}enum {e['name']} {{\n{vals}\n}}"))
+        vals = [f"{_d(v['desc'], '  ')}  {v['name']}{_dep(v['dep'])}" for v in e["values"]]
+        out.append((e["name"], f"{_d(e['desc'])}enum {e['name']}{body(vals)}"))
     for i in m["inputs"]:
-        fs = "\n".join(_iv(m, f, "  ") for f in i["fields"])
-        out.append((i["name"], f"{_d(i['desc'])}input {i['name']}{' @oneOf' if i['oneof'] else ''} "
-                    f"{{\n{fs}\n}}"))
+        fs = [_iv(m, f, "  ") for f in i["fields"]]
+        out.append((i["name"], f"{_d(i['desc'])}input {i['name']}{' @oneOf' if i['oneof'] else ''}"
+                    f"{body(fs)}"))
     for kw, key in (("interface", "interfaces"), ("type", "objects")):
         for o in m[key]:
             impl = (" implements " + " & ".join(o["interfaces"])) if o["interfaces"] else ""
-            fs = "\n".join(f"{_d(f['desc'], '  ')}  {f['name']}{_args(m, f['args'], '  ')}: "
-                           f"{type_str(f['type'])}{_dep(f['dep'])}" for f in o["fields"])
-            out.append((o["name"], f"{_d(o['desc'])}{kw} {o['name']}{impl} {{\n{fs}\n}}"))
+            fs = [f"{_d(f['desc'], '  ')}  {f['name']}{_args(m, f['args'], '  ')}: "
+                  f"{type_str(f['type'])}{_dep(f['dep'])}" for f in o["fields"]]
+            out.append((o["name"], f"{_d(o['desc'])}{kw} {o['name']}{impl}{body(fs)}"))
     for u in m["unions"]:
-        out.append((u["name"], f"{_d(u['desc'])}union {u['name']} = {' | '.join(u['types'])}"))
+        members = (" = " + " | ".join(u["types"])) if u["types"] else ""
+        out.append((u["name"], f"{_d(u['desc'])}union {u['name']}{members}"))
     return out
 
 
